@@ -10,6 +10,7 @@ typedef unsigned long long ull;
 static int g_hash_mode = 0;        // hash distribution (must agree with HashInst.hash_fn)
 static long g_fail = -1;           // >= 0: the hash functor throws when this countdown reaches 0
 static size_t g_logStart = 4;
+static bool g_info = false;
 static bool g_alloc_fail = false;  // the next allocation through VMem throws std::bad_alloc (refused bucket array)
 struct VMem
 {
@@ -73,6 +74,36 @@ template<size_t SZ, size_t AL> struct Elem<SZ, AL, 2> : ElemBase<SZ, AL, 2>
 	~Elem() { std::memset(this->raw, 0xDD, SZ); }
 };
 
+// uniform access to a key: the Elem family or a plain arithmetic key (library HashTraits, fast-hashable)
+template<class K> struct KeyOps
+{
+	static const bool hasTag = K::hasTag;
+	static K mk(uint32_t k, uint32_t t) { return K(k, t); }
+	static uint32_t id(const K& e) { return e.id(); }
+	static uint32_t tag(const K& e) { return e.tag(); }
+};
+template<> struct KeyOps<uint32_t>
+{
+	static const bool hasTag = false;
+	static uint32_t mk(uint32_t k, uint32_t) { return k; }
+	static uint32_t id(const uint32_t& e) { return e; }
+	static uint32_t tag(const uint32_t&) { return 0; }
+};
+
+// which bucket class did the configuration REALLY instantiate?
+template<class B> struct BucketTag { static std::string name() { return "?"; } };
+template<class IT> struct BucketTag<momo::internal::BucketOpen8<IT>> { static std::string name() { return "Open8"; } };
+template<class IT, size_t N, bool P> struct BucketTag<momo::internal::BucketOpen2N2<IT, N, P>> { static std::string name() { return "Open2N2<" + std::to_string(N) + (P ? ",part>" : ",full>"); } };
+template<class IT, size_t N, bool R> struct BucketTag<momo::internal::BucketOpenN1<IT, N, R>> { static std::string name() { return "OpenN1<" + std::to_string(N) + ">"; } };
+template<class IT, size_t N, class MP, bool P> struct BucketTag<momo::internal::BucketLimP4<IT, N, MP, P>> { static std::string name() { return "LimP4<" + std::to_string(N) + (P ? ",part>" : ",full>"); } };
+template<class IT, size_t N, class MP, bool U> struct BucketTag<momo::internal::BucketLimP<IT, N, MP, U>> { static std::string name() { return "LimP<" + std::to_string(N) + (U ? ",ptrstate>" : ",plain>"); } };
+template<class IT, size_t N, class MP> struct BucketTag<momo::internal::BucketLimP1<IT, N, MP>> { static std::string name() { return "LimP1<" + std::to_string(N) + ">"; } };
+template<class IT, size_t L, size_t BC> struct BucketTag<momo::internal::BucketLim4<IT, L, BC>> { static std::string name() { return "Lim4<" + std::to_string(size_t(1) << L) + ">"; } };
+template<class IT, size_t F, class MP, class AS> struct BucketTag<momo::internal::BucketUnlimP<IT, F, MP, AS>> { static std::string name() { return "UnlimP"; } };
+template<class IT, size_t S> struct BucketTag<momo::internal::BucketOne<IT, S>> { static std::string name() { return "One"; } };
+
+struct NoVersionSettings : momo::HashSetSettings { static const bool checkVersion = false; };	// selects the inline crew when traits/manager allow
+
 template<class K, class HB, bool FAST, bool PART>
 struct VTraits
 {
@@ -110,24 +141,26 @@ struct StrVal
 typedef std::vector<std::pair<uint32_t, uint32_t>> KVs;
 
 // ---- uniform adapters over HashSet / HashMap ----
-template<class K, class TR> struct SetAd
+template<class K, class TR, class ST = momo::HashSetSettings> struct SetAd
 {
-	typedef momo::HashSet<K, TR, VMem> C;
+	typedef momo::HashSet<K, TR, VMem, momo::HashSetItemTraits<K, VMem>, ST> C;
 	typedef typename C::ExtractedItem Ext;
 	typedef C Set;
 	static Set& set(C& c) { return c; }
-	static const bool tagged = K::hasTag;      // sets: the value of the model is the tag
+	static const bool tagged = KeyOps<K>::hasTag;      // sets: the value of the model is the tag
 	static bool insert(C& c, uint32_t k, uint32_t v, unsigned variant)
 	{
-		K e(k, v);
+		K e = KeyOps<K>::mk(k, v);
 		switch (variant % 3) {
 		case 0: return c.Insert(std::move(e)).inserted;
 		case 1: return c.Insert(static_cast<const K&>(e)).inserted;
-		default: return c.InsertVar(e, k, v).inserted; }
+		default:
+			if constexpr (std::is_same<K, uint32_t>::value) return c.InsertVar(e, e).inserted;
+			else return c.InsertVar(e, k, v).inserted; }
 	}
 	static bool add(C& c, uint32_t k, uint32_t v)
 	{
-		K e(k, v);
+		K e = KeyOps<K>::mk(k, v);
 		auto pos = c.Find(e);
 		if (!!pos) return false;
 		c.Add(pos, std::move(e));
@@ -135,17 +168,17 @@ template<class K, class TR> struct SetAd
 	}
 	static bool find(const C& c, uint32_t k, uint32_t& v)
 	{
-		K e(k, 0);
+		K e = KeyOps<K>::mk(k, 0);
 		auto pos = c.Find(e);
 		bool has = c.ContainsKey(e);
 		if (has != !!pos) { v = 0xFFFFFFFFu; return true; }   // inconsistent: reported through the value
 		if (!pos) return false;
-		if (pos->id() != k) { v = 0xFFFFFFFEu; return true; }
-		v = pos->tag(); return true;
+		if (KeyOps<K>::id(*pos) != k) { v = 0xFFFFFFFEu; return true; }
+		v = KeyOps<K>::tag(*pos); return true;
 	}
 	static bool setval(C& c, uint32_t k, uint32_t v)
 	{
-		K e(k, v);
+		K e = KeyOps<K>::mk(k, v);
 		auto pos = c.Find(e);
 		if (!pos) return false;
 		c.ResetKey(pos, e);
@@ -153,10 +186,10 @@ template<class K, class TR> struct SetAd
 	}
 	static size_t remove_if(C& c, uint32_t m, uint32_t r)
 	{
-		return c.Remove([m, r] (const K& e) { return e.id() % m == r; });
+		return c.Remove([m, r] (const K& e) { return KeyOps<K>::id(e) % m == r; });
 	}
-	static void ext_get(const Ext& e, uint32_t& k, uint32_t& v) { k = e.GetItem().id(); v = e.GetItem().tag(); }
-	template<class Ref> static void get(const Ref& it, uint32_t& k, uint32_t& v) { k = it.id(); v = it.tag(); }
+	static void ext_get(const Ext& e, uint32_t& k, uint32_t& v) { k = KeyOps<K>::id(e.GetItem()); v = KeyOps<K>::tag(e.GetItem()); }
+	template<class Ref> static void get(const Ref& it, uint32_t& k, uint32_t& v) { k = KeyOps<K>::id(it); v = KeyOps<K>::tag(it); }
 };
 
 template<class K, class TR, class V = uint32_t> struct MapAd
@@ -169,7 +202,7 @@ template<class K, class TR, class V = uint32_t> struct MapAd
 	static uint32_t tagof(uint32_t k) { return k * 2654435761u + 17u; }
 	static bool insert(C& c, uint32_t k, uint32_t v, unsigned variant)
 	{
-		K e(k, tagof(k)); V val = V(v);
+		K e = KeyOps<K>::mk(k, tagof(k)); V val = V(v);
 		switch (variant % 3) {
 		case 0: return c.Insert(std::move(e), std::move(val)).inserted;
 		case 1: return c.Insert(static_cast<const K&>(e), static_cast<const V&>(val)).inserted;
@@ -177,7 +210,7 @@ template<class K, class TR, class V = uint32_t> struct MapAd
 	}
 	static bool add(C& c, uint32_t k, uint32_t v)
 	{
-		K e(k, tagof(k));
+		K e = KeyOps<K>::mk(k, tagof(k));
 		auto pos = c.Find(e);
 		if (!!pos) return false;
 		c.Add(pos, std::move(e), V(v));
@@ -185,17 +218,17 @@ template<class K, class TR, class V = uint32_t> struct MapAd
 	}
 	static bool find(const C& c, uint32_t k, uint32_t& v)
 	{
-		K e(k, 0);
+		K e = KeyOps<K>::mk(k, 0);
 		auto pos = c.Find(e);
 		bool has = c.ContainsKey(e);
 		if (has != !!pos) { v = 0xFFFFFFFFu; return true; }
 		if (!pos) return false;
-		if (pos->key.id() != k || (K::hasTag && pos->key.tag() != tagof(k))) { v = 0xFFFFFFFEu; return true; }
+		if (KeyOps<K>::id(pos->key) != k || (KeyOps<K>::hasTag && KeyOps<K>::tag(pos->key) != tagof(k))) { v = 0xFFFFFFFEu; return true; }
 		v = uint32_t(pos->value); return true;
 	}
 	static bool setval(C& c, uint32_t k, uint32_t v)
 	{
-		K e(k, tagof(k));
+		K e = KeyOps<K>::mk(k, tagof(k));
 		auto pos = c.Find(e);
 		if (!pos) return false;
 		pos->value = V(v);
@@ -204,10 +237,10 @@ template<class K, class TR, class V = uint32_t> struct MapAd
 	}
 	static size_t remove_if(C& c, uint32_t m, uint32_t r)
 	{
-		return c.Remove([m, r] (const K& e, const V&) { return e.id() % m == r; });
+		return c.Remove([m, r] (const K& e, const V&) { return KeyOps<K>::id(e) % m == r; });
 	}
-	template<class Ref> static void get(const Ref& it, uint32_t& k, uint32_t& v) { k = it.key.id(); v = uint32_t(it.value); }
-	static void ext_get(const Ext& e, uint32_t& k, uint32_t& v) { k = e.GetKey().id(); v = uint32_t(e.GetValue()); }
+	template<class Ref> static void get(const Ref& it, uint32_t& k, uint32_t& v) { k = KeyOps<K>::id(it.key); v = uint32_t(it.value); }
+	static void ext_get(const Ext& e, uint32_t& k, uint32_t& v) { k = KeyOps<K>::id(e.GetKey()); v = uint32_t(e.GetValue()); }
 };
 
 template<class AD> struct Runner
@@ -263,7 +296,7 @@ template<class AD> struct Runner
 				{
 					if (!f) out += ",";
 					f = false;
-					out += std::to_string(Set::ItemTraits::GetKey(item).id());
+					out += std::to_string(KeyOps<typename Set::Key>::id(Set::ItemTraits::GetKey(item)));
 				}
 				out += std::string("|") + (b.WasFull() ? "1" : "0") + "|" + std::to_string(ull(b.GetMaxProbe(log)));
 			}
@@ -271,8 +304,22 @@ template<class AD> struct Runner
 		return out;
 	}
 
+	static std::string info()
+	{	// what was REALLY instantiated (checked by prop.py against the intended configuration)
+		typedef typename Set::Bucket Bk;
+		return "bucket=" + BucketTag<Bk>::name() + " max=" + (Bk::maxCount > 1000 ? std::string("inf") : std::to_string(Bk::maxCount))
+			+ " isz=" + std::to_string(sizeof(typename Set::Item)) + " ial=" + std::to_string(Set::ItemTraits::alignment)
+			+ " nothrowreloc=" + std::to_string(int(Set::areItemsNothrowRelocatable))
+			+ " itemnr=" + std::to_string(int(Set::ItemTraits::isNothrowRelocatable))
+			+ " trivreloc=" + std::to_string(int(momo::IsTriviallyRelocatable<typename Set::Key>::value))
+			+ " fast=" + std::to_string(int(Set::HashTraits::isFastNothrowHashable))
+			+ " version=" + std::to_string(int(Set::Settings::checkVersion))
+			+ " crewsize=" + std::to_string(sizeof(typename Set::Crew));
+	}
+
 	static void run(std::istringstream& is)
 	{
+		if (g_info) { puts(info().c_str()); return; }
 		C c, t;
 		typename AD::Ext ext;
 		bool extFull = false; uint32_t extK = 0, extV = 0;
@@ -310,14 +357,14 @@ template<class AD> struct Runner
 				}
 				else if (tok == "R")
 				{
-					is >> a; typename AD::C::Key e(uint32_t(a), 0);
+					is >> a; auto e = KeyOps<typename AD::C::Key>::mk(uint32_t(a), 0);
 					bool got = c.Remove(e);
 					emit(got ? "1" : "0");
 					oracle(got == (tw.erase(uint32_t(a)) == 1), "remove");
 				}
 				else if (tok == "P")
 				{
-					is >> a; typename AD::C::Key e(uint32_t(a), 0);
+					is >> a; auto e = KeyOps<typename AD::C::Key>::mk(uint32_t(a), 0);
 					auto pos = c.Find(e); bool got = !!pos;
 					if (got) c.Remove(pos);
 					emit(got ? "1" : "0");
@@ -353,7 +400,7 @@ template<class AD> struct Runner
 				}
 				else if (tok == "E")
 				{
-					is >> a; typename AD::C::Key e(uint32_t(a), 0);
+					is >> a; auto e = KeyOps<typename AD::C::Key>::mk(uint32_t(a), 0);
 					auto pos = c.Find(e); bool got = !!pos;
 					if (got)
 					{
@@ -367,7 +414,7 @@ template<class AD> struct Runner
 				}
 				else if (tok == "X")
 				{	// extract into the holder (if it is empty)
-					is >> a; typename AD::C::Key e(uint32_t(a), 0);
+					is >> a; auto e = KeyOps<typename AD::C::Key>::mk(uint32_t(a), 0);
 					auto pos = c.Find(e); bool got = !!pos && !extFull;
 					if (got)
 					{
@@ -438,6 +485,7 @@ template<class AD> struct Runner
 					oracle(c.GetCount() == tw.size() && t.GetCount() == tt.size(), "merge");
 				}
 				else if (tok == "H") emit(shape(c));
+				else if (tok == "B") { is >> a; t.Clear(a != 0); tt.clear(); emit("u"); oracle(t.GetCount() == 0, "clear2"); }
 				else { emit("?" + tok); break; }
 			}
 			catch (const std::exception& ex)
@@ -476,6 +524,7 @@ static int c01_main(const Reg* regs, size_t nregs, void (*leaf)(const std::vecto
 		std::string cap, wf0, thr, probing, bound, pol, bar; ull ls = 4; int hash = 0;
 		is >> cap >> wf0 >> thr >> probing >> bound >> pol >> ls >> hash >> bar;
 		g_logStart = size_t(ls); g_hash_mode = hash; g_fail = -1;
+		g_info = (cap == "info");
 		bool found = false;
 		for (size_t i = 0; i < nregs; ++i)
 			if (name == regs[i].name) { regs[i].fn(is); found = true; break; }
@@ -487,6 +536,12 @@ static int c01_main(const Reg* regs, size_t nregs, void (*leaf)(const std::vecto
 
 #define C01_SET(NAME, HB, SZ, AL, CAT, FAST, PART) \
 	{ NAME, &Runner<SetAd<Elem<SZ, AL, CAT>, VTraits<Elem<SZ, AL, CAT>, HB, FAST, PART>>>::run }
+#define C01_SETN(NAME, HB, SZ, AL, CAT, FAST, PART) /* checkVersion = false */ \
+	{ NAME, &Runner<SetAd<Elem<SZ, AL, CAT>, VTraits<Elem<SZ, AL, CAT>, HB, FAST, PART>, NoVersionSettings>>::run }
+#define C01_SETU(NAME, HB) /* arithmetic key, the library's own HashTraits (std::hash, fast-hashable) */ \
+	{ NAME, &Runner<SetAd<uint32_t, momo::HashTraits<uint32_t, HB>>>::run }
+#define C01_MAPU(NAME, HB) \
+	{ NAME, &Runner<MapAd<uint32_t, momo::HashTraits<uint32_t, HB>>>::run }
 #define C01_MAPV(NAME, HB, SZ, AL, CAT, FAST, PART, V) \
 	{ NAME, &Runner<MapAd<Elem<SZ, AL, CAT>, VTraits<Elem<SZ, AL, CAT>, HB, FAST, PART>, V>>::run }
 #define C01_MAP(NAME, HB, SZ, AL, CAT, FAST, PART) \
